@@ -227,7 +227,15 @@ func write(e *ev) (*gozxing.BitMatrix, error) {
 	case "DM":
 		return datamatrix.NewDataMatrixWriter().Encode(content, gozxing.BarcodeFormat_DATA_MATRIX, 0, 0, nil)
 	}
-	return odr.Writer(e.Sym).Encode(content, odr.Format(e.Sym), 0, e.H, nil)
+	h := e.H
+	if h < 0 { // bars (-h / 2) times as tall as the symbol is wide: a sideways image much wider than high
+		m, err := odr.Writer(e.Sym).Encode(content, odr.Format(e.Sym), 0, 1, nil)
+		if err != nil {
+			return nil, err
+		}
+		h = -h * m.GetWidth() / 2
+	}
+	return odr.Writer(e.Sym).Encode(content, odr.Format(e.Sym), 0, h, nil)
 }
 
 func reader(e *ev) gozxing.Reader {
